@@ -258,7 +258,8 @@ class Gen:
                 lines.append(Line(ind + s, call))
         else:
             # func literal called on the spot: iife / goroutine
-            L0 = "func(a ...any) {"
+            # every other literal without parameters (the first identifier after `func` is then in the body)
+            L0 = "func() {" if (con in ("none", "complit", "litprev") and h % 2 == 0) else "func(a ...any) {"
             inner = self.body(info, h, place, ind + ("\t\t" if con == "mlchain" else "\t"))
             if k == "goroutine":
                 lines.append(Line(f"{ind}done{h} := make(chan struct{{}})", pad))
